@@ -113,18 +113,24 @@ ReadOk(cfg, F, m, stale, r) ==
        ELSE \/ r.ok = 1 /\ r.seq = Want(cfg, m)
             \/ stale /\ r.ok = 0
 
+\* the iterator consumed through adapters: 1 = nth(k) first (k items skipped), 2 = step_by(k)
+AdaptSeq(w, a) ==
+    IF a.adapt = 1 THEN SubSeq(w, a.k + 1, Len(w))
+    ELSE IF a.adapt = 2 /\ a.k >= 1 THEN [j \in 1..((Len(w) + a.k - 1) \div a.k) |-> w[(j - 1) * a.k + 1]]
+    ELSE w
+
 ReadIterOk(cfg, F, m, stale, a, r) ==
     /\ r.st = "ok"
     /\ IF Refusals(F, m) # {} THEN r.ok = 0
        ELSE IF stale /\ r.ok = 0 THEN TRUE
        ELSE /\ r.ok = 1 /\ r.capped = 0
-            /\ IsPrefix(r.items, Want(cfg, m))                          \* never shifted / foreign
+            /\ IsPrefix(r.items, AdaptSeq(Want(cfg, m), a))                          \* never shifted / foreign
             /\ IF r.ierr = 1
                THEN /\ Trunc(F, m) /\ r.after = 0                        \* one error item, then the end
                     /\ r.ended = 1 \/ (a.take >= 0 /\ Len(r.items) + 1 = a.take)
                ELSE IF r.ended = 1
-                    THEN r.items = Want(cfg, m) /\ ~Trunc(F, m)         \* complete, never silently short
-                    ELSE a.take >= 0 /\ Len(r.items) = a.take           \* abandoned by the caller
+                    THEN r.items = AdaptSeq(Want(cfg, m), a) /\ ~Trunc(F, m)         \* complete, never silently short
+                    ELSE a.take >= 0 /\ Len(r.items) = a.take /\ a.adapt = 0           \* abandoned by the caller
 
 Explains(cfg, s, e) ==
     LET c == e.c  r == e.r  a == e.c.a  F == Ctx(cfg)  m == Mach(s) IN
@@ -168,7 +174,8 @@ ReadIterExact(cfg, F, m, a, r) ==
              /\ r.hint = Len(Want(cfg, m))                     \* size_hint of a fresh iterator
              /\ SeekOk(F, m, r.io)
              /\ x.good /\ x.j = Len(r.io) + 1
-             /\ r.items = x.m.out
+             /\ r.items = AdaptSeq(x.m.out, a)
+             /\ (a.adapt = 1 /\ a.k < Len(Want(cfg, m)) /\ ~Trunc(F, m)) => r.hint_mid = Len(Want(cfg, m)) - a.k - 1
              /\ r.ended = B2I(x.ended)
              /\ r.ierr = B2I(x.m.last = "err")
              /\ r.ierr = 1 => r.ierrkind = "trunc"
